@@ -97,8 +97,8 @@ def build_script(pats, subs, spec, contexts):
         # the same patterns behind an empty quoted piece and behind a quoted directory part: what is quoted must not change which names a
         # leading dot hides
         L.append('e=; for pi in "${!pats[@]}"; do p=${pats[pi]}; set -- ""$p "$e"$p; printf "h$pi:"; for f in "$@"; do printf " %s" "${f@Q}"; done; echo; done')
-        L.append('for pi in "${!pats[@]}"; do p=${pats[pi]}; set -- .$p "."$p; printf "j$pi:"; for f in "$@"; do printf " %s" "${f@Q}"; done; echo; done')
-        L.append('cd .. && for pi in "${!pats[@]}"; do p=${pats[pi]}; set -- "d/"$p; printf "i$pi:"; for f in "$@"; do printf " %s" "${f@Q}"; done; echo; done')
+        L.append('for pi in "${!pats[@]}"; do p=${pats[pi]}; set -- .$p "."$p "".$p "$e".$p; printf "j$pi:"; for f in "$@"; do printf " %s" "${f@Q}"; done; echo; done')
+        L.append('cd .. && for pi in "${!pats[@]}"; do p=${pats[pi]}; set -- "d/"$p "d/".$p d/""$p "d"/.$p; printf "i$pi:"; for f in "$@"; do printf " %s" "${f@Q}"; done; echo; done')
     return "\n".join(L) + "\n"
 
 
@@ -179,7 +179,7 @@ def run(tier):
                             continue
                     if gr != gb and shlex_names(gr) != shlex_names(gb):
                         v.violation("%s:glob:%s" % (fam, json.dumps(row["p"])), {"kind": "pathname expansion differs", "pattern": text(row["p"]), "expected": gb, "observed": gr})
-                    for tag, what in (("h", 'behind an empty quoted piece (""$p "$e"$p)'), ("i", 'behind a quoted directory part ("d/"$p)'), ("j", 'after a leading dot (.$p "."$p), which makes dot-files eligible')):
+                    for tag, what in (("h", 'behind an empty quoted piece (""$p "$e"$p)'), ("i", 'behind a quoted directory part ("d/"$p "d/".$p d/""$p "d"/.$p)'), ("j", 'after a leading dot (.$p "."$p "".$p "$e".$p), which makes dot-files eligible')):
                         hb, hr = ob.get((tag, i)), orr.get((tag, i))
                         if hb is not None and hr != hb and shlex_names(hr) != shlex_names(hb):
                             v.violation("%s:glob%s:%s" % (fam, tag, json.dumps(row["p"])), {"kind": "pathname expansion differs " + what, "pattern": text(row["p"]), "expected": hb, "observed": hr})
